@@ -26,7 +26,7 @@ def run(ctx):
     for i in range(nb):
         lang = 'ja' if i % 3 == 2 else 'en'
         fmts = R.offered(lang)
-        batch = R.make_batch(rng, lang, awkward=0.1, with_failed=0.15, bare=0.5)
+        batch = R.make_batch(rng, lang, awkward=0.1, with_failed=0.15, bare=0.5, reader_like=0.4)
         pristine = R.clone_batch(batch)
         # reference output of every format on a fresh copy each
         ref = {}
